@@ -47,9 +47,9 @@ LIC_VALUES = ["MIT", "GPL-3.0-or-later", "Apache-2.0+", "GPL-2.0-or-later WITH C
               "mit", "Gpl-3.0-Or-Later", "bsd-3-clause AND mit", "apache-2.0 WITH llvm-exception"]
 HOLDERS = ["Jane Doe", "Jane Doe <jane@example.com>", "Example Corp. <https://example.com>", "Zoë Müller-Lüdenscheidt", "ACME, Inc.",
            "The X Project Authors (see AUTHORS)", "Free Software Foundation Europe e.V.", "O'Neil & Sons", "名前 太郎", "a/b/c team",
-           "Jane \"JD\" Doe", "Team [core]", "Ünïcode GmbH & Co. KG"]
+           "Jane \"JD\" Doe", "Team [core]", "Ünïcode GmbH & Co. KG", "Rene\u0301 Mu\u0308ller", "\u212bngstro\u0308m Lab"]
 YEARS = ["", "2020 ", "1999-2024 ", "2001 - 2003 ", "2020, "]
-CONTRIBS = ["Jane Doe", "John Smith <john@example.org>", "Team Rocket", "Zoë", "Someone, PhD"]
+CONTRIBS = ["Jane Doe", "John Smith <john@example.org>", "Team Rocket", "Zoë", "Someone, PhD", "Rene\u0301 Mu\u0308ller"]
 
 
 def frames_for(st):
